@@ -2,12 +2,14 @@
 with the patch (apart from the emptied datasets path1/path6 and the flaky hiv path12). Uses scratch worktrees of /repo."""
 import json, os, subprocess, sys, shutil
 from concurrent.futures import ThreadPoolExecutor
-SEED = "/tmp/seed"
-OUT = "/tmp/seed_verify.json"
+import sys as _sys
+SEED = _sys.argv[1] if len(_sys.argv) > 1 else "/tmp/seed"
+OUT = _sys.argv[2] if len(_sys.argv) > 2 else "/tmp/seed_verify.json"
+ONLY = _sys.argv[3].split(",") if len(_sys.argv) > 3 else None
 jobs = []
 for pid in sorted(os.listdir(SEED)):
     d = os.path.join(SEED, pid)
-    if not os.path.isdir(d): continue
+    if not os.path.isdir(d) or (ONLY and pid not in ONLY): continue
     for mk in sorted(os.listdir(d)):
         if os.path.exists(os.path.join(d, mk, "patch.diff")) and os.path.exists(os.path.join(d, mk, "demo.py")):
             jobs.append((pid, mk))
